@@ -1,6 +1,6 @@
 (* Properties_C03.v — the theorems that decide property C03 on the model, each stated in full and closed by
    `exact <lemma>`; the lemmas live in the Proofs_*.v files.  Nothing else belongs in this file. *)
-From Theo Require Import Base VMModel VMSpec VMStatements VMCheck VMCheckStatements Proofs_VMCheck.
+From Theo Require Import Base VMModel VMSpec VMStatements VMCheck VMCheckStatements Proofs_VMCheck GenWfStatements Tokens Errors MacroExtract Parser GenModel CompileStatements Proofs_GenWf.
 Local Open Scope Z_scope.
 Local Open Scope Z_scope.
 
@@ -31,3 +31,19 @@ Theorem C03_wf_safe_hist :
     exists s, run_hist fuel h (init p) = Ok s /\ (exists b, isDone s = Ok b) /\ (exists v, views s = Ok v).
 Proof. exact C03_wf_safe_hist_proof. Qed.
 Print Assumptions C03_wf_safe_hist.
+
+Theorem C03_gen_wf :
+  forall toks root r, parse_tokens toks = Ok (Some root, []) ->
+    gen true [] (Some root) = Ok r -> gr_ok r = true ->
+    exists ann f, sound (gr_prog r) ann (Ecall (gr_prog r)) f.
+Proof. exact C03_gen_wf_proof. Qed.
+Print Assumptions C03_gen_wf.
+
+Theorem C03_gen_safe :
+  forall toks root r, parse_tokens toks = Ok (Some root, []) ->
+    gen true [] (Some root) = Ok r -> gr_ok r = true ->
+    forall k, exists s, vm_run k (init (gr_prog r)) = Ok s /\
+                        (exists b, isDone s = Ok b) /\ (exists v, views s = Ok v) /\
+                        zlen (stack s) <= zlen (exec_targets (gr_prog r)) + 1.
+Proof. exact C03_gen_safe_proof. Qed.
+Print Assumptions C03_gen_safe.
